@@ -52,6 +52,8 @@ def impl_vote(case):
             P, m, vals, k, lam, seed = it["P"], it["m"], it["vals"], it["k"], it["lam"], it["seed"]
             prof = V.profile_obj(P)
             vp = persist("vals", to_np(vals), ValuationProfile.of)
+            # the utilitarian rule may get its own valuation matrix (near ties between the two leaders need not be consistent with P)
+            vpu = persist("valsu", to_np(it["vals_util"]), ValuationProfile.of) if it.get("vals_util") else vp
             res = {}
             for name, (mk, kind) in voting_rules(m, k, lam, vp).items():
                 r = {}
@@ -66,7 +68,7 @@ def impl_vote(case):
                             if kind == "profile":
                                 sc = rule.score(prof); w = rule.scf(prof)
                             elif kind == "vals":
-                                sc = rule.score(vp); w = rule.scf(vp)
+                                sc = rule.score(vpu); w = rule.scf(vpu)
                             else:
                                 sc = rule.score(prof, ValuationProfileElicitor(vp)); w = rule.scf(prof, ValuationProfileElicitor(vp))
                         finally:
@@ -194,6 +196,8 @@ def judge_vote(R, it, res, lean):
         R.violation("property_violation", "total on a valid profile", ENTRY, it, impl_output=res, oracle="raised/hang")
         return
     inp = {"P": P, "vals": it["vals"], "k": it["k"], "lambda": it["lam"], "seed": it["seed"]}
+    if it.get("vals_util"):
+        inp["vals_util"] = it["vals_util"]
     tied_any = False
     for name, r in res.items():
         if name in ("stv", "rand"):
@@ -401,11 +405,25 @@ def run(R):
     items = []
     cnt = 2500 if R.thorough else 260
     for t in range(cnt):
-        m = R.rng.choice([2, 3, 4, 4, 5, 6, 7, 8])
+        m = R.rng.choice([1, 2, 3, 4, 4, 5, 6, 7, 8])
         n = R.rng.choice([1, 2, 3, 4, 6, 8, 9])
         P = V.structured_profile(R.rng, n, m) if R.rng.random() < 0.6 else V.rand_profile(R.rng, n, m)
-        items.append({"P": P, "m": m, "vals": consistent_vals(R.rng, P, m), "k": R.rng.randint(1, m), "lam": R.rng.randint(1, m),
-                      "seed": R.rng.randrange(10 ** 6)})
+        it = {"P": P, "m": m, "vals": consistent_vals(R.rng, P, m), "k": R.rng.randint(1, m), "lam": R.rng.randint(1, m),
+              "seed": R.rng.randrange(10 ** 6)}
+        if m >= 2 and R.rng.random() < 0.3:
+            # two leading alternatives whose total utility differs by a relative 1e-6 .. 1e-8: distinct scores, so exactly one maximiser
+            rows = [[R.rng.choice([0.5, 1.0, 2.0, 3.0]) for _ in range(m)] for _ in range(n)]
+            a, b = R.rng.sample(range(m), 2)
+            for row in rows:
+                row[b] = row[a]
+            rows[R.rng.randrange(n)][b] *= (1 + R.rng.choice([1e-6, 1e-7, 1e-8]))
+            for row in rows:
+                for j in range(m):
+                    if j not in (a, b):
+                        row[j] = min(row[j], row[a] * 0.5)
+            it["vals_util"] = rows
+            R.count("utilitarian:near_tie_between_leaders")
+        items.append(it)
     run_vote(R, items)
     others = [gen_other(R) for _ in range(3000 if R.thorough else 200)]
     cases = [{"items": ch} for ch in chunks(others, 10)]
@@ -424,5 +442,5 @@ def replay(R, rep):
         judge_other(R, inp, res["results"][0] if "results" in res else {"hang": True})
     else:
         P = inp["P"]
-        run_vote(R, [{"P": P, "m": len(P[0]), "vals": inp["vals"], "k": inp["k"], "lam": inp["lambda"], "seed": inp["seed"]}])
+        run_vote(R, [{"P": P, "m": len(P[0]), "vals": inp["vals"], "k": inp["k"], "lam": inp["lambda"], "seed": inp["seed"], "vals_util": inp.get("vals_util")}])
     R.extra.pop("_s", None)
